@@ -96,6 +96,28 @@ pub fn child_records(args: &[String]) -> i32 {
     0
 }
 
+/// child side: `fpverif child programs <file>` — one JSON line per input: the program text for
+/// the device "/dev/mdt0" (null when the input is refused).
+pub fn child_programs(file: &str) -> i32 {
+    let inputs: Vec<String> = match std::fs::read_to_string(file).ok().and_then(|t| serde_json::from_str(&t).ok()) {
+        Some(v) => v,
+        None => return 2,
+    };
+    let out = std::io::stdout();
+    let mut out = out.lock();
+    for input in &inputs {
+        let prog: Option<String> = match parse_real(input) {
+            P::Ok(o, e) => match compile_handle(&e, &o) {
+                C::Ok(h) => h.scheme("/dev/mdt0").ok(),
+                _ => None,
+            },
+            _ => None,
+        };
+        let _ = writeln!(out, "{}", serde_json::to_string(&prog).unwrap());
+    }
+    0
+}
+
 #[derive(Clone, Debug, Default)]
 pub struct Rec {
     pub hash: u64,
@@ -143,10 +165,17 @@ pub fn sweep(profile: &str, inputs: &[String], tag: &str) -> Result<Vec<Rec>, St
     Ok(recs)
 }
 
+/// No line from a child for this long while it works on one input counts as a hang.
+const HANG_S: u64 = 15;
+/// After this many hangs (or answers slower than 5 s) a shard stops: the remaining inputs of the shard are recorded as
+/// `not-run` (each hang costs HANG_S of wall time; the hangs found are reported).
+const MAX_HANGS: usize = 2;
+
 fn shard_loop(bin: &std::path::Path, file: &std::path::Path, shard: usize, n: usize, total: usize) -> Result<Vec<(usize, Rec)>, String> {
     let mut out = vec![];
     let mut from = 0usize;
     let mut restarts = 0;
+    let mut hangs = 0;
     loop {
         let mut child = Command::new(bin)
             .args(["child", "records", file.to_str().unwrap(), &shard.to_string(), &n.to_string(), &from.to_string()])
@@ -167,7 +196,7 @@ fn shard_loop(bin: &std::path::Path, file: &std::path::Path, shard: usize, n: us
         let mut done = false;
         let mut hung = false;
         loop {
-            match rx.recv_timeout(Duration::from_secs(30)) {
+            match rx.recv_timeout(Duration::from_secs(HANG_S)) {
                 Ok(line) => {
                     let mut p = line.split(' ');
                     match p.next() {
@@ -179,6 +208,22 @@ fn shard_loop(bin: &std::path::Path, file: &std::path::Path, shard: usize, n: us
                             let class = p.collect::<Vec<_>>().join(" ");
                             out.push((i, Rec { hash, ms, class }));
                             started = None;
+                            if ms > 5000 {
+                                // very slow answers count towards the shard's limit like hangs
+                                hangs += 1;
+                                if hangs >= MAX_HANGS {
+                                    let _ = child.kill();
+                                    let _ = child.wait();
+                                    let mut j = shard;
+                                    while j < total {
+                                        if j > i {
+                                            out.push((j, Rec { hash: 0, ms: 0, class: "not-run".into() }));
+                                        }
+                                        j += n;
+                                    }
+                                    return Ok(out);
+                                }
+                            }
                         }
                         Some("E") => {
                             done = true;
@@ -209,6 +254,19 @@ fn shard_loop(bin: &std::path::Path, file: &std::path::Path, shard: usize, n: us
         out.push((i, Rec { hash: 0, ms: 0, class: if hung { "hang".into() } else { format!("died:{status}") } }));
         from = i + 1;
         restarts += 1;
+        if hung {
+            hangs += 1;
+            if hangs >= MAX_HANGS {
+                let mut j = shard;
+                while j < total {
+                    if j >= from {
+                        out.push((j, Rec { hash: 0, ms: 0, class: "not-run".into() }));
+                    }
+                    j += n;
+                }
+                return Ok(out);
+            }
+        }
         if restarts > 200 || from >= total {
             if from >= total {
                 return Ok(out);
